@@ -1,5 +1,6 @@
 import SamVerif.Drive.Common
 import SamVerif.Gen.Crc
+import SamVerif.Model.Upstream
 /-
 The executable specification behind the cluster script language (C03, C04, C07): a single
 Redis server's semantics for the supported commands, the cluster's layout and migration state,
@@ -112,24 +113,18 @@ def routeFrom (c : Cl) (s : Nat) (k : Bytes) (present : Bool) : Nat → Nat → 
   | 0, _, _, hops, _ => (none, hops, true)
   | fuel + 1, node, asking, hops, viaTable =>
     if !c.up node || (viaTable && c.staleAddr.contains node) then (none, hops, true) else
+    -- what the node answers is `Model.Upstream.nodeAnswer` (the subject of C04's theorem) on the slot's true state
     let owner := c.owner s
-    let mig := c.migr.find? (·.1 == s)
-    if node == owner then
-      match mig with
-      | some (_, src, dst) =>
-        if src == owner && (!present || c.movedKeys.contains k) then routeFrom c s k present fuel dst true (hops + 1) false
-        else (some node, hops, hops > 0)
-      | none => (some node, hops, hops > 0)
-    else
-      match mig with
-      | some (_, _, dst) =>
-        if dst == node && asking then (some node, hops, hops > 0)
-        else
-          let to := match c.beliefs.find? (fun b => b.1 == node && b.2.1 == s) with | some b => b.2.2 | none => owner
-          routeFrom c s k present fuel to false (hops + 1) false
-      | none =>
-        let to := match c.beliefs.find? (fun b => b.1 == node && b.2.1 == s) with | some b => b.2.2 | none => owner
-        routeFrom c s k present fuel to false (hops + 1) false
+    let t : SamVerif.Upstream.Truth :=
+      { owner := owner, target := (c.migr.find? (fun m => m.1 == s && m.2.1 == owner)).map (·.2.2) }
+    let onOwner := present && !c.movedKeys.contains k
+    match SamVerif.Upstream.nodeAnswer t node onOwner asking with
+    | .serve => (some node, hops, hops > 0)
+    | .ask dst => routeFrom c s k present fuel dst true (hops + 1) false
+    | .moved n =>
+      -- a node with a lagging view names the node it believes in
+      let to := match c.beliefs.find? (fun b => b.1 == node && b.2.1 == s) with | some b => b.2.2 | none => n
+      routeFrom c s k present fuel to false (hops + 1) false
 
 def route (c : Cl) (k : Bytes) (present : Bool) : Option Nat × Nat × Bool :=
   let s := slotOf k
